@@ -610,6 +610,12 @@ def reset(elements: bool = True, default_parameters: bool = True):
         _ELEMENTS.clear()
         _ELEMENTS.update(_DEFAULT_ELEMENTS)
 
+        # Forget which of the removed user-defined elements were private
+        key: str
+        for key in list(_PRIVATE_ELEMENTS.keys()):
+            if key not in _DEFAULT_ELEMENTS:
+                del _PRIVATE_ELEMENTS[key]
+
     if default_parameters:
         reset_default_parameter_values()
 
